@@ -177,9 +177,9 @@ def mgs_engine(ctx):
         # ---- E1 per k
         lines = [e1misc.mgs_request(m, k) for k, _ in r["caps"]]
         outs = ctx.model.run(lines, multiline=True)
-        for (k, impl), out in zip(r["caps"], outs):
+        for (k, impl), out, line in zip(r["caps"], outs, lines):
             model = lpdump.parse_model(out)
-            d = lpdump.diff(impl, model)
+            d = e1misc.decide(ctx, "E1_MinGenSet_LP", impl, line, lpdump.diff(impl, model))
             ctx.count("E1_MinGenSet_LP", "cases"); ctx.count("E1_MinGenSet_LP", "rows_compared", len(impl["rows"]))
             if d:
                 ctx.count("E1_MinGenSet_LP", "disagreements")
@@ -318,6 +318,7 @@ def msc_engine(ctx):
         impl = lpdump.dump_impl(m.solver, e1misc.colkey_msc(m.solver))
         model = lpdump.parse_model(out)
         d = lpdump.diff(impl, model) if "error" not in model["extra"] else ["model built no LP: " + model["extra"]["error"]]
+        d = e1misc.decide(ctx, "E1_MinSetCover_LP", impl, req, d)
         ctx.count("E1_MinSetCover_LP", "cases"); ctx.count("E1_MinSetCover_LP", "rows_compared", len(impl["rows"]))
         if d:
             ctx.count("E1_MinSetCover_LP", "disagreements")
